@@ -78,6 +78,9 @@ def gen(rng):
     for name in EVENT_CBS:
         if name in cbs and rng.random() < 0.15:
             cbs[name] = {"do": "raise", "nth": rng.choice((None, 1, 2))}
+            if rng.random() < 0.5:
+                cbs[name]["exc"] = rng.choice(("conn_closed", "conn_reset", "broken_pipe", "timeout", "oserror", "value", "ws_exc", "protocol", "payload",
+                                               "unicode", "attr", "stop_iteration"))
     tls = rng.random() < 0.3
     sizes = [] if tls or rng.random() < 0.4 else [rng.choice((1, 2, 3, 5, 9, 100)) for _ in range(rng.randrange(1, 4))]
     sc = {"items": items, "end": end, "callbacks": cbs, "tls": tls, "sizes": sizes, "seed": rng.randrange(1 << 30)}
@@ -123,6 +126,13 @@ def expand(item, seed):
                     rcbs = {n: ({"do": "raise"} if n != "on_error" else {"do": "ok"}) for n in cbs}
                     yield {"items": REF_ITEMS, "end": {"t": 3 * S, "kind": "eof", "body_hex": ""}, "callbacks": rcbs,
                            "tls": tls, "sizes": [] if tls else [1], "seed": 1}
+                    if not tls:
+                        # the same with every kind of exception a user's code may raise, the library's own types included
+                        for ek in ("conn_closed", "conn_reset", "broken_pipe", "timeout", "oserror", "value", "ws_exc", "protocol", "payload",
+                                   "unicode", "attr", "stop_iteration"):
+                            ecbs = {n: ({"do": "raise", "exc": ek} if n != "on_error" else {"do": "ok"}) for n in cbs}
+                            yield {"items": REF_ITEMS, "end": {"t": 3 * S, "kind": "eof", "body_hex": ""}, "callbacks": ecbs,
+                                   "tls": tls, "sizes": [1], "seed": 1}
     else:
         for i in range(item["start"], item["start"] + item["count"]):
             yield gen(random.Random(derive_seed(seed, ID, i)))
@@ -263,7 +273,8 @@ def run(sc, choices=None):
                 if "on_error" in cbs:
                     nxt = tr[i + 1] if i + 1 < len(tr) else None
                     want_msg = f"boom-{name}-{counts[name]}"
-                    if nxt is None or nxt[2] != "on_error" or nxt[3][0][:2] != ("exc", "RuntimeError") or nxt[3][0][2] != want_msg:
+                    from ..appdrv import CB_EXC
+                    if nxt is None or nxt[2] != "on_error" or nxt[3][0][:2] != ("exc", CB_EXC[beh.get("exc")]) or nxt[3][0][2] != want_msg:
                         res.violate("callback_exception_not_reported", ctx,
                                     f"{name} raised {want_msg}; next callback was {None if nxt is None else (nxt[2], nxt[3])}")
                         break
